@@ -331,6 +331,7 @@ int main(int argc, char** argv) {
   A = vc::parse_args(argc, argv);
   if (A.profile.empty()) A.profile = "all";
   PM = prop_mask(A.prop);
+  if (A.has("coldcall")) { real::cold_start(); ST.label("process_started_with_a_call_before_any_reporter_was_installed"); }
   ST.rule = "rapidcheck: vectors of 26-byte records decoded (indices modulo, nothing filtered) into operations of profile '" + A.profile +
             "' over 3 mocks x 7 functions, 12 expectation slots, 3 sequences, 3 deathwatched objects, tracers, reporters; plus a generated teardown order. "
             "distinct = FNV-1a of the decoded operation list; non-trivial per property as in DESIGN.md section 5";
